@@ -371,3 +371,8 @@ def element_sources(fnode, listvar):
                     continue
             out.add(norm(alt))
     return out
+
+
+def truthy_texts(x):
+    """spellings of `x is non-empty` the canonical form keeps apart (x a container of unknown static type)"""
+    return {x, f"len({x})"}
